@@ -467,6 +467,7 @@ func runConfig(t *testing.T, steps []ConfigStep) result {
 	}
 	// ONE service instance for the whole history: what a refresh installs is what later lookups use.
 	svc := standardblockrelay.NewForVerifC16(level, src, url, mocks.NewChainTime(32), src, bellatrix.ExecutionAddress{9}, 12345)
+	book := enableRegistrations(svc)
 	dead := false // a refresh panicked: the service is not used any further
 	inSteps := make([]string, len(steps))
 	obsSteps := make([]string, len(steps))
@@ -556,9 +557,21 @@ func runConfig(t *testing.T, steps []ConfigStep) result {
 				outsJSON = append(outsJSON, addrs)
 			}
 		}
+		// the registration round that follows the refresh (the accounts provider is back if it was away)
+		src.accountsErr, src.noAccounts = false, false
+		reg, regJSON := panicT, any("service lost to an earlier panic")
+		if !dead {
+			ids, p, m := registrationRound(ctx, svc, book)
+			if p {
+				res.obs.Panic, res.obs.Message = true, m
+				regJSON = "panic: " + m
+			} else {
+				reg, regJSON = okT(nlist(ids)), ids
+			}
+		}
 		inSteps[i] = Pair(docTerm(st.Doc), List(lks))
-		obsSteps[i] = Pair(dec, List(outs))
-		obsJSON = append(obsJSON, map[string]any{"text": text, "decode": dec, "lookups": outsJSON})
+		obsSteps[i] = Pair(Pair(dec, List(outs)), reg)
+		obsJSON = append(obsJSON, map[string]any{"text": text, "decode": dec, "lookups": outsJSON, "registered_with": regJSON})
 
 		res.counts = append(res.counts, "doc:"+st.Doc.Kind)
 		switch st.Doc.Kind {
@@ -756,6 +769,30 @@ func genConfig(r *Rand) []ConfigStep {
 		at := r.Intn(len(steps) + 1)
 		bare := ConfigStep{Doc: genBare(r), Lookups: lookups}
 		steps = append(steps[:at], append([]ConfigStep{bare}, steps[at:]...)...)
+	}
+	// family: a configuration with relays is in force, then a refresh that must not change it (a bare
+	// value, an unreadable source, a failing accounts provider, no accounts, malformed text), with the
+	// same questions before and after.
+	if r.Chance(1, 5) {
+		good := &V2In{NullLists: r.Bool()}
+		for a, n := uint64(1), uint64(r.Range(1, 3)); a <= n; a++ {
+			good.Relays = append(good.Relays, BaseRelayIn{Addr: a})
+		}
+		if r.Bool() {
+			good.Proposers = append(good.Proposers, ProposerIn{Key: "validator", Validator: lookups[0][1], Reset: r.Chance(1, 4),
+				Relays: []PRelayIn{{Addr: uint64(r.Range(1, 6)), Disabled: r.Chance(1, 3)}}})
+		}
+		var keep DocIn
+		switch k := r.Intn(6); {
+		case k < 2:
+			keep = genBare(r)
+		case k < 5:
+			keep = DocIn{Kind: "unavailable", Variant: r.Intn(3)}
+		default:
+			keep = DocIn{Kind: "malformed", Variant: r.Intn(len(malformedTexts))}
+		}
+		pre := []ConfigStep{{Doc: DocIn{Kind: "v2", V2: good}, Lookups: lookups}, {Doc: keep, Lookups: lookups}}
+		steps = append(pre, steps[:len(steps)-1]...)
 	}
 	if r.Chance(1, 4) {
 		steps[0].Source = "http"
